@@ -49,6 +49,11 @@ def gen_one(rng, tier):
     handles = [{'path': p, 'value': rng.choice(VALUES)} for p in paths]
     if rng.random() < 0.5:
         handles[0]['value'] = 'world'
+    # the load of a handle may itself read an earlier handle (as a world
+    # file resolving $res{} does)
+    for i in range(1, len(handles)):
+        if rng.random() < 0.25:
+            handles[i]['dep'] = rng.randrange(i)
     ops = []
     for _ in range(rng.randint(2, 60 if big else 30)):
         kind = rng.choices(ACCESS, [20, 16, 12, 8, 8, 6, 4, 12, 10, 8, 6])[0]
@@ -60,7 +65,23 @@ def gen_one(rng, tier):
     return {'handles': handles, 'ops': ops}
 
 
+def gen_scale(rng):
+    """A few hundred handles resident at the same time."""
+    n = rng.choice([150, 300])
+    handles = [{'path': f'bank{k // 20}/h{k}', 'value': rng.choice(VALUES[:12])}
+               for k in range(n)]
+    ops = [[rng.choice(['call', 'item', 'chain']), k] for k in range(n)]
+    for _ in range(200):
+        ops.append([rng.choice(['call', 'item', 'get_call', 'cached',
+                                'pstatic_item']), rng.randrange(n)])
+    for k in rng.sample(range(n), 20):
+        ops += [['clear', k], ['item', k], ['call', k]]
+    return {'handles': handles, 'ops': ops}
+
+
 def gen_cases(tier, seed):
+    for i in range(2 if tier == 'quick' else 32):
+        yield gen_scale(random.Random(f'C12/scale/{seed}/{tier}/{i}'))
     n = 4000 if tier == 'quick' else 16 * 10000
     for i in range(n):
         yield gen_one(random.Random(f'C12/{seed}/{tier}/{i}'), tier)
@@ -122,14 +143,19 @@ def run_case(case):
 
         def load(self):
             self.loads += 1
+            if self.dep is not None:
+                nested.append(self.dep)
+                hs[self.dep]()
             v = self.factory()
             self.values.append(v)
             return v
 
     root = desper.ResourceMap()
     hs = []
+    nested = []         # handles read from inside another handle's load
     for i, spec in enumerate(case['handles']):
         h = CH(i, make_factory(desper, spec['value']))
+        h.dep = spec.get('dep')
         root[spec['path']] = h
         hs.append(h)
     loaded = [False] * len(hs)      # model: is the handle cached
@@ -178,11 +204,33 @@ def run_case(case):
             return v
         raise ValueError(kind)
 
+    def absorb_nested(at, i, others):
+        """Handles read from inside the load of handle i: an ordinary
+        access of theirs."""
+        for j in list(nested):
+            res.tags['nested_access_during_load'].add(True)
+            want_j = others[j] + (0 if loaded[j] else 1)
+            if hs[j].loads != want_j:
+                res.div(at, 'load-count', f'handle {j} (read from inside the '
+                        f'load of handle {i}) loaded {hs[j].loads - others[j]}'
+                        f' time(s) with cached={loaded[j]}',
+                        want_j - others[j], hs[j].loads - others[j])
+                return False
+            if not loaded[j]:
+                epochs[j] += 1
+                paths_in_epoch[j] = set()
+            loaded[j] = True
+            others[j] = hs[j].loads
+        del nested[:]
+        return True
+
     def check_access(at, kind, i, do):
         """One access to handle i through ``do``; judged by the model."""
         nonlocal nontrivial
         h = hs[i]
         before = h.loads
+        del nested[:]
+        others = [x.loads for x in hs]
         try:
             cached = h.cached
         except Exception as ex:
@@ -211,6 +259,8 @@ def run_case(case):
             res.div(at, 'different-object', f'{kind} access of handle {i} did '
                     'not return the identical object load() produced for this '
                     'epoch', repr(h.values[-1:]), repr(got))
+            return False
+        if not absorb_nested(at, i, others):
             return False
         if not loaded[i]:
             epochs[i] += 1
@@ -258,6 +308,7 @@ def run_case(case):
             # model of Loop.switch: clears first, then accesses the target
             before = [h.loads for h in hs]
             was_loaded = list(loaded)
+            del nested[:]
             if cc and cur is not None:
                 loaded[cur] = False
             if cn:
@@ -280,6 +331,8 @@ def run_case(case):
                         f'clear_next={cn}) loaded the target '
                         f'{hs[i].loads - before[i]} time(s)', expect_load,
                         hs[i].loads - before[i], was_cached=was_loaded[i])
+                break
+            if not absorb_nested(at, i, before):
                 break
             for j, h in enumerate(hs):
                 if j != i and h.loads != before[j]:
